@@ -292,10 +292,23 @@ def m_guard_deref(c, g):
 
 
 # ----------------------------------------------------------------------------- arc_swap / once_cell: harness hooks provide the global
-@model(r'^<(?:once_cell::sync::)?Lazy<.*> as (?:std::ops::)?Deref>::deref$')
+@model(r'^(?:once_cell::sync::)?Lazy::<.*>::new$|^(?:std::sync::)?LazyLock::<.*>::new$')
+def m_lazy_new(c, f):
+    return Agg([None, f], 'Lazy')
+
+
+@model(r'^<(?:once_cell::sync::)?Lazy<.*> as (?:std::ops::)?Deref>::deref$|^<(?:std::sync::)?LazyLock<.*> as (?:std::ops::)?Deref>::deref$')
 def m_lazy_deref(c, p):
+    """Lazy statics: a harness hook may supply the value; otherwise the initialiser closure is run once (per path)."""
     ip = c.ip
     hook = getattr(ip, 'lazy_hook', None)
-    if hook is None:
-        raise Inconclusive("access to global Lazy without harness hook: %r" % (p,))
-    return hook(ip, p, c)
+    if hook is not None:
+        r = hook(ip, p, c)
+        if r is not None:
+            return r
+    lz = ip.load(p.cell, p.path)
+    if not (isinstance(lz, Agg) and lz.ty == 'Lazy'):
+        raise Inconclusive("deref of Lazy %r" % (lz,))
+    if lz.fields[0] is None:
+        lz.fields[0] = ip.call_value(lz.fields[1], [])
+    return Ptr(p.cell, p.path + (('f', 0),))
